@@ -25,6 +25,9 @@ type V struct {
 	L    []V
 	O    []KV
 	Desc string
+	// Typed: a list whose elements all have one scalar Go type is handed over as a typed Go slice
+	// ([]int, []string, []bool, []float64) instead of []any — the same list for the model
+	Typed bool
 }
 
 type KV struct {
@@ -143,6 +146,11 @@ func (v V) Go() any {
 	case "t":
 		return v.T
 	case "l":
+		if v.Typed && len(v.L) > 0 {
+			if ts := typedSlice(v.L); ts != nil {
+				return ts
+			}
+		}
 		out := make([]any, len(v.L))
 		for i, x := range v.L {
 			out[i] = x.Go()
@@ -159,6 +167,50 @@ func (v V) Go() any {
 		return unsupported{X: 3}
 	}
 	panic("bad V kind " + v.K)
+}
+
+// typedSlice: []int / []string / []bool / []float64 when every element has that Go type, else nil
+func typedSlice(l []V) any {
+	kind := l[0].K
+	if kind == "i" {
+		kind = "i:" + l[0].IK
+	}
+	for _, x := range l {
+		k := x.K
+		if k == "i" {
+			k = "i:" + x.IK
+		}
+		if k != kind {
+			return nil
+		}
+	}
+	switch kind {
+	case "i:int":
+		out := make([]int, len(l))
+		for i, x := range l {
+			out[i] = int(x.I)
+		}
+		return out
+	case "s":
+		out := make([]string, len(l))
+		for i, x := range l {
+			out[i] = x.S
+		}
+		return out
+	case "b":
+		out := make([]bool, len(l))
+		for i, x := range l {
+			out[i] = x.B
+		}
+		return out
+	case "f64":
+		out := make([]float64, len(l))
+		for i, x := range l {
+			out[i] = x.F
+		}
+		return out
+	}
+	return nil
 }
 
 // VOfGo reads back an input value handed to a callback (object keys sorted: canonical form).
@@ -198,6 +250,14 @@ func VOfGo(x any) V {
 		return out
 	case unsupported:
 		return V{K: "x", Desc: "chan"}
+	case []int, []string, []bool, []float64:
+		// a typed slice is the same list for the model
+		rv := reflect.ValueOf(x)
+		out := V{K: "l"}
+		for i := 0; i < rv.Len(); i++ {
+			out.L = append(out.L, VOfGo(rv.Index(i).Interface()))
+		}
+		return out
 	}
 	return V{K: "x", Desc: "unknown"}
 }
